@@ -71,7 +71,41 @@ func (w *World) VerifyFunc(key string) (res *FuncResult) {
 			return
 		}
 	}
-	x := &Exec{W: w, Fn: fi, C: c, inst: inst}
+	if len(c.Derived) > 0 {
+		// the contract is proved to be a consequence of each of its source contracts (instances of the generic function):
+		// a call of the source by contract stands for the body
+		for _, sk := range c.Derived {
+			sc := w.CS.ByKey[sk]
+			if sc == nil || sc.Flags["assumed"] || len(sc.Derived) > 0 {
+				res.OutOfSubset = "derived from " + sk + ": no verified contract of that name"
+				return
+			}
+			base := sk
+			sinst := ""
+			if i := strings.Index(sk, "["); i >= 0 && strings.HasSuffix(sk, "]") {
+				base, sinst = sk[:i], sk[i+1:len(sk)-1]
+			}
+			if base != key {
+				res.OutOfSubset = "derived from " + sk + ": not an instance of " + key
+				return
+			}
+			r1 := &FuncResult{Key: key}
+			w.verifyUnit(&Exec{W: w, Fn: fi, C: c, inst: sinst, derived: sc}, r1)
+			res.Obls = append(res.Obls, r1.Obls...)
+			res.Notes = append(res.Notes, r1.Notes...)
+			res.Paths += r1.Paths
+			if r1.OutOfSubset != "" {
+				res.OutOfSubset = r1.OutOfSubset
+				return
+			}
+		}
+		return
+	}
+	w.verifyUnit(&Exec{W: w, Fn: fi, C: c, inst: inst}, res)
+	return
+}
+
+func (w *World) verifyUnit(x *Exec, res *FuncResult) {
 	defer func() {
 		if r := recover(); r != nil {
 			switch e := r.(type) {
@@ -269,6 +303,33 @@ func (x *Exec) run(res *FuncResult) {
 	_ = entrySt
 	body := st.clone()
 	paths := 0
+	if x.derived != nil {
+		fake := &ast.CallExpr{Fun: &ast.Ident{NamePos: fi.Decl.Pos(), Name: fi.Obj.Name()}, Lparen: fi.Decl.Pos(), Rparen: fi.Decl.Pos()}
+		var recv *Val
+		if fi.Decl.Recv != nil && len(fi.Decl.Recv.List) > 0 && len(fi.Decl.Recv.List[0].Names) > 0 {
+			recv = names[fi.Decl.Recv.List[0].Names[0].Name]
+		}
+		// channel parameters carry what the derived contract declares for them
+		ai := 0
+		for _, fld := range fi.Decl.Type.Params.List {
+			if len(fld.Names) == 0 {
+				ai++
+				continue
+			}
+			for _, nm := range fld.Names {
+				if ai < len(args) && nm.Name != "_" {
+					args[ai] = x.chanDecorate(args[ai], nm.Name, body, fr)
+				}
+				ai++
+			}
+		}
+		x.callContract(fake, x.derived, fi.Obj, fi, recv, args, body, fr, func(s *St, v *Val) {
+			paths++
+			x.checkPost(s, fr, v, names)
+		})
+		res.Paths = paths
+		return
+	}
 	x.runBody(fr, ftype, sig, body0, body, func(s *St, v *Val) {
 		paths++
 		x.checkPost(s, fr, v, names)
